@@ -28,6 +28,10 @@ item that is not Timeout, a Timeout object used outside `with`) is exit 1.
 A timeout expression that is not one of the configured-timeout attributes is
 emitted as `TOther "<expr>"`, which the Coq side treats as NOT a guard.
 Attribute loads (properties) are not calls and are not examined (stated limit).
+A site inside an `except` handler that can catch Timeout (bare, Timeout, BaseException,
+or a tuple containing one) or inside a `finally` is emitted with the pseudo scope
+`TExpired` unless a `with Timeout(...)` is opened inside the handler: it runs after a
+timer may have fired, so no enclosing or inherited scope bounds it.
 """
 import ast
 import json
@@ -84,7 +88,8 @@ CONN_METHODS = {     # self.conn.<m>   (http.client.HTTPConnection)
 }
 TYPED_METHODS = {    # local variables whose type is inferred from their assignment
     'DataReader': {'recv': 'KRead', 'recv_piece': 'KRead'},
-    'Popen': {'communicate': 'KProc', 'wait': 'KProc'},
+    'Popen': {'communicate': 'KProc', 'wait': 'KProc',                  # wait for the child
+              'terminate': None, 'kill': None, 'poll': None, 'send_signal': None},   # return at once
     'AuthSession': {'server_attempt': 'KRead', 'client_attempt': 'KExchange'},
 }
 TYPE_SOURCES = {     # callee text of the assigned value -> inferred type
@@ -188,6 +193,15 @@ def dotted(node):
     return None
 
 
+def catches_timeout(t):
+    """does `except <t>:` catch gevent.Timeout (a BaseException)?"""
+    if t is None:
+        return True
+    if isinstance(t, ast.Tuple):
+        return any(catches_timeout(e) for e in t.elts)
+    return dotted(t) in ('Timeout', 'gevent.Timeout', 'BaseException')
+
+
 def is_timeout_ctor(call):
     return isinstance(call, ast.Call) and dotted(call.func) in ('Timeout', 'gevent.Timeout')
 
@@ -264,6 +278,25 @@ class MethodScanner(object):
                 inner.append(dict(expr=tex or 'TOther', text=text, line=node.lineno))
             for st in node.body:
                 self.visit(st, inner)
+            return
+        if isinstance(node, (ast.Try, getattr(ast, 'TryStar', ast.Try))):
+            # A handler that can catch Timeout (and every `finally`) runs AFTER a timer may have
+            # fired: neither the scopes around the `try` nor a caller's scope bound what it does.
+            # Only a scope opened inside the handler counts there.
+            for st in node.body:
+                self.visit(st, scopes)
+            for h in node.handlers:
+                if h.type is not None:
+                    self.visit(h.type, scopes)
+                inner = [dict(expr='TExpired', text='handler', line=h.lineno)] if catches_timeout(h.type) else scopes
+                for st in h.body:
+                    self.visit(st, inner)
+            for st in node.orelse:
+                self.visit(st, scopes)
+            if node.finalbody:
+                inner = [dict(expr='TExpired', text='finally', line=node.finalbody[0].lineno)]
+                for st in node.finalbody:
+                    self.visit(st, inner)
             return
         if isinstance(node, ast.Call):
             self.call(node, scopes)
@@ -497,12 +530,17 @@ def scope_ok(s):
     return s['scope'] is not None and s['scope']['expr'] in GUARD_EXPRS
 
 
+def is_expired(s):
+    return s['scope'] is not None and s['scope']['expr'] == 'TExpired'
+
+
 def exposed(sites, cls):
     """methods of cls reachable from a root (a method nobody calls) through call sites that are not in a scope"""
     mine = [s for s in sites if s['cls'] == cls]
     methods = sorted(set(s['method'] for s in mine) | set(s['callee'] for s in mine if s['kind'] == 'KCall'))
     called = set(s['callee'] for s in mine if s['kind'] == 'KCall')
     cur = set(m for m in methods if m not in called)
+    cur |= set(s['callee'] for s in mine if s['kind'] == 'KCall' and is_expired(s))
     while True:
         new = set(s['callee'] for s in mine if s['kind'] == 'KCall' and s['method'] in cur and not scope_ok(s))
         if new <= cur:
@@ -518,7 +556,7 @@ def unguarded(sites):
             continue
         if s['cls'] not in exp:
             exp[s['cls']] = exposed(sites, s['cls'])
-        if s['method'] in exp[s['cls']]:
+        if s['method'] in exp[s['cls']] or is_expired(s):
             out.append(s)
     return out
 
@@ -555,6 +593,8 @@ def coq_scope(sc):
     if sc is None:
         return 'None'
     e = sc['expr'] if sc['expr'] != 'TOther' else '(TOther %s)' % coq_string(sc['text'])
+    if sc['expr'] == 'TExpired':
+        e = 'TExpired'
     return '(Some (%s, %d%%N))' % (e, sc['line'])
 
 
